@@ -1,5 +1,6 @@
 """C10 -- incomplete rows are handled exactly as documented (check_input_data and every class built on it; the
 effect-measure classes are covered by C07 and re-checked lightly here)."""
+import re
 from fractions import Fraction
 
 import numpy as np
@@ -16,7 +17,7 @@ REQUIRED = ['drop_idempotent', 'est_eq_after_deletion', 'incomplete_rows_irrelev
             # Props/C10_Gen.lean: check_input_data and its call sites as regenerated from /repo
             'check_input_data_spec', 'check_input_data_generated', 'check_input_data_raises_iff', 'sites_as_documented',
             'drop_all_classes_complete_case', 'keep_classes_format', 'est_eq_after_deletion_generated',
-            'miss_flag_spec_generated']
+            'miss_flag_spec_generated', 'check_input_data_incomplete_rows_irrelevant']
 RULE = ('random categorical data sets (1-3 covariates, <= 8 strata, positivity by construction among the complete '
         'rows; outcome binary / normal / count) with outcome missingness none / MCAR / depending on A and L, to which '
         'incomplete rows are added (none / MCAR / selected depending on A and L): copies of rows with the exposure, a '
@@ -38,7 +39,13 @@ RULE = ('random categorical data sets (1-3 covariates, <= 8 strata, positivity b
         'standardization differs from the complete-case one).  Translator stream: check_input_data itself called with all '
         'eight flag combinations on small frames (1-13 rows, numeric exposure with an occasional value other than 0/1, binary '
         'or continuous outcome, NaN rate 0 / 0.15 / 0.4 in every column, four row-label shapes) against the code '
-        'regenerated from it (Gen/InputData.lean)')
+        'regenerated from it (Gen/InputData.lean).  Round 4: every data set draws a naming of its columns (canonical; '
+        'covariates / exposure / weights named by a piece of the outcome\'s or the exposure\'s name; names containing the '
+        'outcome\'s or exposure\'s short name) under which the frame reaches every constructor and the runners of TMLE, '
+        'AIPTW with separate nuisance models, StochasticTMLE and the cross-fit classes; with a binary outcome the '
+        'incomplete rows of 60% of the data sets hold other outcome values (2, 3, 0.5, -1, 9); the direct calls of '
+        'check_input_data draw the same namings and 0/1 outcomes with one or two other values, and are judged directly '
+        '(documented row filter; same answer after the caller deleted the rows it drops)')
 ASSUMPTIONS = ['statsmodels GLM/GEE are deterministic functions of the rows they are given (same rows in the same order '
                '-> bit-identical fits); measured: results on the data and on the deleted data agree to 1e-12',
                'statsmodels GLM solves the score equations of saturated models (reference fit per data set: gate H)',
@@ -50,6 +57,53 @@ ASSUMPTIONS = ['statsmodels GLM/GEE are deterministic functions of the rows they
 XTOL = dict(rtol=1e-12, atol=1e-14)     # same rows reach the same fits: identical up to the last bits
 CTOL = dict(rtol=1e-6, atol=1e-8)       # closed form vs implementation: IRLS convergence error
 KTOL = dict(rtol=1e-9, atol=1e-11)
+
+
+# ------------------------------------------------------------------ the caller's own column names
+# No clause of the property depends on what the columns are called.  Every data set draws a naming: the canonical
+# names (A, Y, L1.., w), or names that are pieces of one another -- covariates / exposure / weights named by a piece of
+# the outcome's (or the exposure's) name (baseline `cd4` next to the outcome `cd4_wk45_count`), or names that contain
+# the outcome's (exposure's) short name (`y1_l1`, `l2tx`).  The renamed frame goes to the constructors (the formatted
+# frame of every class) and to the runners of this module (TMLE, AIPTW with separate nuisance models, StochasticTMLE,
+# the cross-fit classes); the check itself keeps the canonical names.
+LONG = {'Y': 'cd4_wk45_count', 'A': 'art_naive_start'}
+PARTS = {'Y': ['cd4', 'wk45', 'count', 'cd4_wk45', 'd4_wk', 'wk45_count'],
+         'A': ['art', 'naive', 'start', 'art_naive', 'rt_na', 'naive_start']}
+SHORT = {'Y': 'y1', 'A': 'tx'}
+NAMINGS = ('plain', 'sub:Y', 'sub:A', 'super:Y', 'super:A')
+_IDENT = re.compile(r'[A-Za-z_][A-Za-z_0-9]*')
+
+
+def draw_naming(rng, covs):
+    """(scheme, {canonical name: actual name} for the renamed columns)"""
+    scheme = str(rng.choice(NAMINGS, p=[0.3, 0.3, 0.1, 0.2, 0.1]))
+    if scheme == 'plain':
+        return scheme, {}
+    kind, role = scheme.split(':')
+    others = [c for c in list(covs) + ['A', 'Y', 'w'] if c != role]
+    chosen = [c for c in others if rng.uniform() < 0.6] or [others[int(rng.integers(0, len(others)))]]
+    if kind == 'sub':
+        parts = [PARTS[role][i] for i in rng.permutation(len(PARTS[role]))]
+        nm = {role: LONG[role]}
+        nm.update({c: parts[j] for j, c in enumerate(chosen)})
+    else:
+        nm = {role: SHORT[role]}
+        nm.update({c: (SHORT[role] + '_' + c.lower()) if rng.integers(0, 2) else (c.lower() + SHORT[role])
+                   for c in chosen})
+    return scheme, nm
+
+
+def N(nm, c):
+    return c if c is None else (nm or {}).get(c, c)
+
+
+def nsub(text, nm):
+    """a formula / expression written with the canonical names, in the caller's names"""
+    return _IDENT.sub(lambda m: nm.get(m.group(0), m.group(0)), text) if nm else text
+
+
+def named(df, cols, nm):
+    return df[cols].rename(columns=nm) if nm else df[cols]
 
 
 # ------------------------------------------------------------------ data
@@ -104,6 +158,12 @@ def make_data(seed, ytype, ymiss, xmiss, shape='default'):
                 extra.iloc[keepy[0], extra.columns.get_loc('Y')] = float(np.nanmax(df['Y'].values) + 7)
             if len(keepy) >= 2 and ytype == 'normal':
                 extra.iloc[keepy[1], extra.columns.get_loc('Y')] = float(np.nanmin(df['Y'].values) - 5)
+        elif rng.uniform() < 0.6:
+            # binary outcome: an incomplete row may hold anything in the outcome column (a number of events, a fraction,
+            # a code such as -1 / 9).  Whether the analysis is one of a binary outcome is a matter of the retained rows
+            keepy = np.flatnonzero(extra['Y'].notna().values)
+            for j in keepy[rng.uniform(size=len(keepy)) < 0.5]:
+                extra.iloc[j, extra.columns.get_loc('Y')] = float(rng.choice([2.0, 3.0, 0.5, -1.0, 9.0]))
         df = pd.concat([df.astype({c: float for c in covs + ['A']}), extra], ignore_index=True)
         df = df.iloc[rng.permutation(len(df))].reset_index(drop=True)
     else:
@@ -252,26 +312,29 @@ def learner(kind, continuous=False):
 
 
 def formatted(which, df, covs, o):
-    """(formatted frame, miss_flag) of a bare instance of the class: public constructor, nothing fitted"""
+    """(formatted frame, miss_flag) of a bare instance of the class: public constructor, nothing fitted; the frame is
+    handed over under the data set's own column names (o['nm'])"""
     import zepid.causal.ipw as ipw
     import zepid.causal.gformula as gf
     import zepid.causal.doublyrobust as dr
     import zepid.causal.snm as snm
+    nm = o.get('nm')
     w = o.get('w')
-    d = df[covs + ['A', 'Y'] + ([w] if w else [])]
+    d = named(df, covs + ['A', 'Y'] + ([w] if w else []), nm)
+    a, y, w = N(nm, 'A'), N(nm, 'Y'), N(nm, w)
     if which == 'IPTW':
-        b = ipw.IPTW(d, treatment='A', outcome='Y', weights=w)
+        b = ipw.IPTW(d, treatment=a, outcome=y, weights=w)
     elif which == 'StochasticIPTW':
-        b = ipw.StochasticIPTW(d, treatment='A', outcome='Y', weights=w)
+        b = ipw.StochasticIPTW(d, treatment=a, outcome=y, weights=w)
     elif which == 'TimeFixedGFormula':
-        b = gf.TimeFixedGFormula(d, exposure='A', outcome='Y', outcome_type=o['ytype'], weights=w)
+        b = gf.TimeFixedGFormula(d, exposure=a, outcome=y, outcome_type=o['ytype'], weights=w)
         return b.gf, b._miss_flag
     elif which == 'AIPTW':
-        b = dr.AIPTW(d, exposure='A', outcome='Y', weights=w)
+        b = dr.AIPTW(d, exposure=a, outcome=y, weights=w)
     elif which == 'GEstimationSNM':
-        b = snm.GEstimationSNM(d, exposure='A', outcome='Y', weights=w)
+        b = snm.GEstimationSNM(d, exposure=a, outcome=y, weights=w)
     else:
-        b = getattr(dr, which)(d, exposure='A', outcome='Y')
+        b = getattr(dr, which)(d, exposure=a, outcome=y)
     return b.df, b._miss_flag
 
 
@@ -280,15 +343,18 @@ def formulas(covs, o):
     three; `gspec='first'` coarsens the treatment model to the first covariate, `mspec='arm'` / `qspec='arm'` coarsen
     the missingness / outcome model to the treatment arm only (deliberately misspecified nuisance models)"""
     tm, om = c09.specs(covs, o['spec'])
-    return ('C(%s)' % covs[0] if o.get('gspec') == 'first' else tm, 'A' if o.get('mspec') == 'arm' else om,
-            'A' if o.get('qspec') == 'arm' else om)
+    return tuple(nsub(f, o.get('nm')) for f in (
+        'C(%s)' % covs[0] if o.get('gspec') == 'first' else tm, 'A' if o.get('mspec') == 'arm' else om,
+        'A' if o.get('qspec') == 'arm' else om))
 
 
 def run_tmle(df, covs, o):
     from zepid.causal.doublyrobust import TMLE
     tm, mf, om = formulas(covs, o)
     yt, cu = o['ytype'], o.get('custom')
-    t = TMLE(df[covs + ['A', 'Y']], exposure='A', outcome='Y', continuous_bound=o.get('cb', 0.0005))
+    nm = o.get('nm')
+    t = TMLE(named(df, covs + ['A', 'Y'], nm), exposure=N(nm, 'A'), outcome=N(nm, 'Y'),
+             continuous_bound=o.get('cb', 0.0005))
     t.exposure_model(tm, print_results=False, **({'custom_model': learner(cu)} if cu else {}))
     if o['miss'] == 'mm':
         t.missing_model(mf, print_results=False, **({'custom_model': learner(cu)} if cu else {}))
@@ -309,7 +375,8 @@ def run_aiptw_dr(df, covs, o):
     from zepid.causal.doublyrobust import AIPTW
     tm, mf, om = formulas(covs, o)
     yt, cu = o['ytype'], o.get('custom')
-    a = AIPTW(df[covs + ['A', 'Y']], exposure='A', outcome='Y')
+    nm = o.get('nm')
+    a = AIPTW(named(df, covs + ['A', 'Y'], nm), exposure=N(nm, 'A'), outcome=N(nm, 'Y'))
     a.exposure_model(tm, print_results=False, **({'custom_model': learner(cu)} if cu else {}))
     if o['miss'] == 'mm':
         a.missing_model(mf, print_results=False, **({'custom_model': learner(cu)} if cu else {}))
@@ -325,9 +392,10 @@ def run_aiptw_dr(df, covs, o):
 
 def run_stmle(df, covs, o):
     from zepid.causal.doublyrobust import StochasticTMLE
-    tm, om = c09.specs(covs, o['spec'])
+    nm = o.get('nm')
+    tm, om = (nsub(f, nm) for f in c09.specs(covs, o['spec']))
     cu = o.get('custom')
-    s = StochasticTMLE(df[covs + ['A', 'Y']], exposure='A', outcome='Y')
+    s = StochasticTMLE(named(df, covs + ['A', 'Y'], nm), exposure=N(nm, 'A'), outcome=N(nm, 'Y'))
     s.exposure_model(tm, **({'custom_model': learner(cu)} if cu else {}))
     s.outcome_model(om, **({'custom_model': learner(cu, continuous=o['ytype'] != 'binary')} if cu else {}))
     s.fit(p=o['p'], samples=o['samples'], seed=o['seed'])
@@ -338,10 +406,11 @@ def run_crossfit(df, covs, o):
     import zepid.causal.doublyrobust as dr
     from zepid.superlearner import GLMSL
     f = sm.families.family.Binomial()
-    e = getattr(dr, o['cls'])(df[covs + ['A', 'Y']], exposure='A', outcome='Y')
-    e.exposure_model(' + '.join(covs), GLMSL(f))
+    nm = o.get('nm')
+    e = getattr(dr, o['cls'])(named(df, covs + ['A', 'Y'], nm), exposure=N(nm, 'A'), outcome=N(nm, 'Y'))
+    e.exposure_model(nsub(' + '.join(covs), nm), GLMSL(f))
     # cross-fit TMLE rescales a continuous outcome to [0, 1]: a (quasi-)binomial GLM keeps predictions inside
-    e.outcome_model('A + ' + ' + '.join(covs), GLMSL(f) if (o['ytype'] == 'binary' or 'TMLE' in o['cls']) else
+    e.outcome_model(nsub('A + ' + ' + '.join(covs), nm), GLMSL(f) if (o['ytype'] == 'binary' or 'TMLE' in o['cls']) else
                     GLMSL(sm.families.family.Gaussian()))
     e.fit(n_splits=3 if 'Double' in o['cls'] else 2, n_partitions=2, random_state=o['seed'])
     est = {'RD': e.risk_difference, 'RR': e.risk_ratio} if o['ytype'] == 'binary' else {'ACE': e.ace}
@@ -629,8 +698,13 @@ def one_dataset(chk, drv, rng, ytype, ymiss, xmiss, tier, classes, only=None, se
     rec = gen.describe(df, covs, outcome=ytype, ymiss=ymiss, xmiss=xmiss, data_seed=seed, incomplete_rows=n_inc,
                        retained=int(len(dele)), complete_cases=int(len(cc)), index=shape,
                        deleted_labels='reset' if isinstance(dele.index, pd.RangeIndex) else 'kept')
+    scheme, nm = draw_naming(np.random.default_rng(seed + 11), covs)
+    rec['naming'] = scheme
     chk.count('data/y=%s/x=%s/%s' % (ymiss, xmiss, ytype))
     chk.count('index/' + shape)
+    chk.count('naming/' + scheme)
+    odd = dele['Y'].dropna().isin([0, 1]).all() and not df['Y'].dropna().isin([0, 1]).all()
+    chk.count('outcome/%s' % ('0-1 in the retained rows, other values in incomplete rows' if odd else ytype))
     # gate H: reference saturated treatment fit on the retained rows = cell proportions
     import statsmodels.formula.api as smf
     chk.h_checked += 1
@@ -651,6 +725,8 @@ def one_dataset(chk, drv, rng, ytype, ymiss, xmiss, tier, classes, only=None, se
     for which in classes:
         opts = [only] if only is not None else cells(which, ytype, has_ymiss, covs, rng, tier)
         for o in opts:
+            if only is None and nm:
+                o['nm'] = nm
             case = {'estimator': which, 'options': o, 'data': rec}
             key = (seed, which, tuple(sorted((k, str(v)) for k, v in o.items())))
             chk.case(case, key if (n_inc > 0 or shifts) else None, sample=case if chk.evals % 37 == 0 else None)
@@ -712,14 +788,72 @@ def one_survival(chk, drv, rng, tier, seed=None):
               'complete-case result', case)
 
 
-def gen_stream(chk, drv, rng, tier):
-    """K for the translator's output itself: `zepid.causal.utils.check_input_data` called directly, with each of the
-    eight flag combinations, on small frames with a numeric exposure column (mostly 0/1, sometimes another value: the
-    binary-exposure guard), a binary or continuous outcome, NaN anywhere and one of the row-label shapes; against the
-    regenerated `Gen.check_input_data` (driver op c10gen): raises or not, retained labels in order, indicator column,
-    miss_flag, continuous"""
+def direct_call(df, nm, dc, dm, bo):
+    """check_input_data called directly on the frame under the caller's names: ('err', exception) or
+    ('ok', {kept positions in df, indicator column, flag, continuous})"""
     import warnings
     from zepid.causal.utils import check_input_data
+    with warnings.catch_warnings():
+        warnings.simplefilter('ignore')
+        st, val = attempt(lambda: check_input_data(df.rename(columns=nm), N(nm, 'A'), N(nm, 'Y'), 'K', bool(dc),
+                                                   bool(dm), bool(bo)))
+    if st == 'err':
+        return st, val
+    out, flag, continuous = val
+    pos = [int(v) for v in df.index.get_indexer(pd.Index(list(out['index'])))] if 'index' in out.columns else None
+    ind = [int(v) for v in np.asarray(out['__missing_indicator__'])] if '__missing_indicator__' in out.columns else None
+    return st, {'kept': pos, 'obs': ind, 'flag': bool(flag), 'continuous': bool(continuous)}
+
+
+def direct_case(chk, drv, df, nm, dc, dm, bo, case):
+    """one direct call: K against the regenerated code; D = the documented row filter, and the same answer after the
+    caller deleted the rows the function is documented to drop (the incomplete rows decide nothing: not the retained
+    rows, not the indicator, not miss_flag, not whether the outcome counts as continuous, not the exposure guard)"""
+    st, got = direct_call(df, nm, dc, dm, bo)
+    sub = list(df.columns) if dc else [c for c in df.columns if c != 'Y']
+    keep = df.dropna(subset=sub)
+    if drv is not None:
+        okc = ~df[[c for c in df.columns if c not in ('A', 'Y')]].isna().any(axis=1).values
+        raw = dict(e=','.join('_' if np.isnan(v) else rq(float(v)) for v in df['A'].tolist()),
+                   l=','.join('0' if b else '_' for b in okc.tolist()),
+                   y=','.join('_' if np.isnan(v) else rq(float(v)) for v in df['Y'].tolist()))
+        rep, _ = drv.ask('c10gen', dc=dc, dm=dm, bo=bo, **raw)
+        if st == 'err':
+            ok = rep['status'] == 'ok' and rep['raise'] == '1' and isinstance(got, ValueError)
+        else:
+            ok = rep['status'] == 'ok' and rep['raise'] == '0' and c09_ints(rep['kept']) == got['kept'] and \
+                c09_ints(rep['obs']) == got['obs'] and (rep['miss'] == '1') == got['flag'] and \
+                (rep['cont'] == '1') == got['continuous']
+        chk.k(ok, 'check_input_data called directly = the code regenerated from it (raise / retained rows / '
+              'indicator column / miss_flag / continuous)',
+              dict(case, python=repr(got)[:200] if st == 'err' else got, generated=rep))
+    if st == 'ok':
+        obs = [1] * len(keep) if dc else [int(v) for v in keep['Y'].notna()]
+        exp = {'kept': [int(v) for v in df.index.get_indexer(keep.index)], 'obs': obs,
+               'flag': (not dc) and (0 in obs)}
+        chk.d(all(got[k] == exp[k] for k in exp), 'check_input_data called directly: retains exactly the rows it '
+              'documents (%s), in the caller\'s order, each with its own observed-outcome indicator, and the matching '
+              'miss_flag' % ('complete rows' if dc else 'everything but the outcome present'),
+              dict(case, got=got, want=exp))
+    st2, got2 = direct_call(keep, nm, dc, dm, bo)
+    if st == 'ok' and st2 == 'ok':
+        a = dict(got, kept=[df.index[i] for i in got['kept']] if got['kept'] is not None else None)
+        b = dict(got2, kept=[keep.index[i] for i in got2['kept']] if got2['kept'] is not None else None)
+        same = a == b
+    else:
+        same = st == st2 and type(got) is type(got2)
+    chk.d(same, 'check_input_data called directly: incomplete rows do not influence what it returns (retained rows, '
+          'indicator, miss_flag, outcome type, binary-exposure guard = those after deleting them)',
+          dict(case, on_data=repr(got)[:300], after_deletion=repr(got2)[:300]))
+
+
+def gen_stream(chk, drv, rng, tier):
+    """`zepid.causal.utils.check_input_data` called directly, with each of the eight flag combinations, on small frames
+    with a numeric exposure column (mostly 0/1, sometimes another value: the binary-exposure guard), a binary or
+    continuous outcome or a 0/1 outcome with one or two other values (a count, a code), NaN anywhere, one of the
+    row-label shapes and a naming of the columns (draw_naming).  K: against the regenerated `Gen.check_input_data`
+    (driver op c10gen): raises or not, retained labels in order, indicator column, miss_flag, continuous.  D: see
+    direct_case"""
     n_frames = 12 if tier == 'quick' else 60
     for k in range(n_frames):
         n = int(rng.integers(1, 14))
@@ -729,6 +863,9 @@ def gen_stream(chk, drv, rng, tier):
         if odd:
             ev[int(rng.integers(0, n))] = float(rng.choice([2.0, 0.5, -1.0]))
         yv = rng.normal(size=n).round(2) if cont else rng.choice([0.0, 1.0], size=n)
+        oddy = (not cont) and k % 2 == 1
+        if oddy:
+            yv[rng.integers(0, n, size=int(rng.integers(1, 3)))] = float(rng.choice([2.0, 3.0, 0.5, -1.0]))
         df = pd.DataFrame({'L1': rng.integers(0, 3, n).astype(float), 'A': ev, 'L2': rng.integers(0, 2, n).astype(float),
                            'Y': yv})
         pm = float(rng.choice([0.0, 0.15, 0.4]))
@@ -736,36 +873,19 @@ def gen_stream(chk, drv, rng, tier):
             df.loc[rng.uniform(size=n) < pm, c] = np.nan
         shape = INDEX_SHAPES[k % len(INDEX_SHAPES)]
         df = reshape_index(df, 'shifted' if shape == 'string' else shape, rng)
-        okc = ~df[['L1', 'L2']].isna().any(axis=1).values
-        raw = dict(e=','.join('_' if np.isnan(v) else rq(float(v)) for v in df['A'].tolist()),
-                   l=','.join('0' if b else '_' for b in okc.tolist()),
-                   y=','.join('_' if np.isnan(v) else rq(float(v)) for v in df['Y'].tolist()))
+        scheme, nm = draw_naming(rng, ['L1', 'L2'])
+        nm = {c: v for c, v in nm.items() if c in df.columns}
         for dc in (0, 1):
             for dm in (0, 1):
                 for bo in (0, 1):
-                    case = {'frame': df.to_dict('list'), 'index': [str(v) for v in df.index], 'drop_censoring': dc,
-                            'drop_missing': dm, 'binary_exposure_only': bo}
+                    case = {'kind': 'direct', 'frame': df.to_dict('list'), 'index': [int(v) for v in df.index],
+                            'names': nm, 'drop_censoring': dc, 'drop_missing': dm, 'binary_exposure_only': bo}
                     chk.case(case, ('gen', k, dc, dm, bo) if (df.isna().any().any() or odd) else None)
                     chk.count('generated-check_input_data/dc=%d/bo=%d/%s' % (dc, bo, 'odd-exposure' if odd else 'binary'))
-                    with warnings.catch_warnings():
-                        warnings.simplefilter('ignore')
-                        st, val = attempt(lambda: check_input_data(df, 'A', 'Y', 'K', bool(dc), bool(dm), bool(bo)))
-                    rep, _ = drv.ask('c10gen', dc=dc, dm=dm, bo=bo, **raw)
-                    if st == 'err':
-                        ok = rep['status'] == 'ok' and rep['raise'] == '1' and isinstance(val, ValueError)
-                        got = repr(val)[:200]
-                    else:
-                        out, flag, continuous = val
-                        pos = [int(v) for v in df.index.get_indexer(pd.Index(list(out['index'])))] \
-                            if 'index' in out.columns else None
-                        ind = [int(v) for v in np.asarray(out['__missing_indicator__'])] \
-                            if '__missing_indicator__' in out.columns else None
-                        got = {'kept': pos, 'obs': ind, 'flag': bool(flag), 'continuous': bool(continuous)}
-                        ok = rep['status'] == 'ok' and rep['raise'] == '0' and c09_ints(rep['kept']) == pos and \
-                            c09_ints(rep['obs']) == ind and (rep['miss'] == '1') == bool(flag) and \
-                            (rep['cont'] == '1') == bool(continuous)
-                    chk.k(ok, 'check_input_data called directly = the code regenerated from it (raise / retained rows / '
-                          'indicator column / miss_flag / continuous)', dict(case, python=got, generated=rep))
+                    chk.count('generated-check_input_data/naming/' + scheme)
+                    chk.count('generated-check_input_data/outcome/' + ('continuous' if cont else '0-1 with other values'
+                                                                       if oddy else '0-1'))
+                    direct_case(chk, drv, df, nm, dc, dm, bo, case)
 
 
 def measures_recheck(chk, rng):
@@ -816,8 +936,7 @@ def run(chk, drv, rng, tier):
         for _ in range(2):
             one_survival(chk, drv, rng, tier)
         measures_recheck(chk, rng)
-    if drv is not None:
-        gen_stream(chk, drv, rng, tier)
+    gen_stream(chk, drv, rng, tier)
 
 
 def replay(rec):
@@ -828,7 +947,11 @@ def replay(rec):
         o, data = c['options'] if 'options' in c else None, c.get('data', {})
         chk = common.Check('C10', 'quick', rec.get('seed', 0))
         with common.quiet():
-            if data.get('kind') == 'survival':
+            if c.get('kind') == 'direct':
+                df = pd.DataFrame(c['frame'], index=c['index']).astype(float)
+                direct_case(chk, None, df, c['names'], c['drop_censoring'], c['drop_missing'],
+                            c['binary_exposure_only'], dict(c))
+            elif data.get('kind') == 'survival':
                 one_survival(chk, None, None, 'quick', seed=data['data_seed'])
             elif 'data_seed' in data:
                 one_dataset(chk, None, None, data['outcome'], data['ymiss'], data['xmiss'], 'quick', [c['estimator']],
